@@ -12,668 +12,785 @@ Definition show_fres (r : fres) : string :=
   end.
 Definition check (rs : list rune) : string := digest (show_fres (format_res rs)).
 Definition full (rs : list rune) : string := show_fres (format_res rs).
-Eval vm_compute in ("<<<M41>>>" ++ check (runes_of_ascii "  root packet u{ match crc as
-leftPad { [ 00 ] : //
-o,  42
-    /// triple
-    :
-// trailing space 
-//x
-crc [
-""a	b"" ,
-""CRC32"" , ""a\""b"" , ""\n""
-, 0
-, 255 ] : // packet A { u8 x, }
-zchar ,
-// " ++ [128512]%N ++ runes_of_ascii " emoji
-//
-} //	t
-,	string stringy
-    @lengthOf(matchKey ),
-    int ,@tag(
-1)repeat	zchar[ 4294967296] roots , @leftPad ( '\x00'	) x
-    //x
-    @lengthOf( crc ), } packet// c
-repeatCount { zchar[ 255]	f32a	@calculatedFrom(
-    ""x y"" )
-,@tag(
-    255) char[] asx
-@calculatedFrom(""" ++ [28040; 24687]%N ++ runes_of_ascii """
-    // " ++ [27880; 37322]%N ++ runes_of_ascii "
-    ) , leftPad{
-/// triple
-// a // b
-repeat int u8x ,
-i64
-trueish	@lengthOf(	i8i8 ) `" ++ [28040; 24687; 31867; 22411]%N ++ runes_of_ascii "`
-    // a // b
-    ,
-repeat
-int64 //	t
-pack
-    , } ,
-    match float as o { //
-65535
-:
-Pad ,[
-""" ++ [128512]%N ++ runes_of_ascii """ , """ ++ [28040; 24687]%N ++ runes_of_ascii """,
-    0123456789 ]
-//x
-// @lengthOf(
-:i8i8
-, 7 :
-asx 00: stringy } ,@calculatedFrom(
-""" ++ [233]%N ++ runes_of_ascii "t" ++ [233]%N ++ runes_of_ascii """ ) f32a
-// packet A { u8 x, }
-// trailing space 
-u , repeat msg_type `" ++ [233]%N ++ runes_of_ascii "` ,
-repeat zchar[
-42 ]crc
-    , uint64
-    // " ++ [27880; 37322]%N ++ runes_of_ascii "
-    lengthOf , repeat As``
-    ,
-zchar[ 007 ] tag `tab	here`  , }	root packet charz
-{
-    string msg_type , @calculatedFrom( """") repeat//	t
-string  tag `tab	here`
-    ,repeat calculatedFrom ,
-repeat Foo, uint64
-Foo@lengthOf( packetx) ,
-@rightPad  ( )	match	falsey as calculatedFrom { [ 0 , 10
-    , ""a\""b"" ] : metadata ,
-} , @calculatedFrom( ""\" ++ [233]%N ++ runes_of_ascii """ )
-    i64  As ``,
-    @lengthOf(
-rootA) u32 Logon // c
-@lengthOf(a1  ) , @calculatedFrom( """" ) @leftPad ( ' '
-    )
-    uint16
-i8i8
-@calculatedFrom( ""// no comment""
-) ,  } root packet// trailing space 
-uint8x {
-    repeat f32
-chars `tab	here` ,}
-MetaData calculatedFrom
-{
-//
-// `tick` ""quote"" 'q'
-metadata crc , }
-
-")).
-Eval vm_compute in ("<<<M382>>>" ++ check (runes_of_ascii "options {
-	StringPrefixLenType = u16;
-	ArrayPrefixLenType = u16;
-}
-
-packet SampleBinary {
-    uint16 MsgType `" ++ [28040; 24687; 31867; 22411]%N ++ runes_of_ascii "`,
-    u16 BodyLenght @lengthOf(Body) `" ++ [28040; 24687; 20307; 38271; 24230]%N ++ runes_of_ascii "`,
-    match MsgType as Body {
-        1 : Logon,
-        2 : Logout,
-        3 : Heartbeat,
-        4 : RiskControlRequest,
-        5 : RiskControlResponse,
-    },
-        @calculatedFrom(""CRC32"")
-    u32 Ckecksum `" ++ [26657; 39564; 21644]%N ++ runes_of_ascii "`,
-}
-
-packet Logon {
-     @leftPad('0')
-    char[10] UserName `" ++ [29992; 25143; 21517]%N ++ runes_of_ascii "`,
-    string Password `" ++ [23494; 30721]%N ++ runes_of_ascii "`,
-    uint64 ClientId `" ++ [23458; 25143; 31471]%N ++ runes_of_ascii "ID`,
-    u16 HeartbeatInterval `" ++ [24515; 36339; 38388; 38548]%N ++ runes_of_ascii "`,
-}
-
-packet Logout {
-      @rightPad('0')
-    char[10] UserName `" ++ [29992; 25143; 21517]%N ++ runes_of_ascii "`,
-    uint64 ClientId `" ++ [23458; 25143; 31471]%N ++ runes_of_ascii "ID`,
-}
-
-packet Heartbeat {
-}
-
-packet RiskControlRequest {
-    string UniqueOrderId `" ++ [21807; 19968; 35746; 21333; 21495]%N ++ runes_of_ascii "`,
-    char[16] ClOrdID `" ++ [23458; 25143; 35746; 21333; 21495]%N ++ runes_of_ascii "`,
-    char[3] MarketID `" ++ [24066; 22330]%N ++ runes_of_ascii "id`,
-    char[12] SecurityID `" ++ [35777; 21048; 20195; 30721]%N ++ runes_of_ascii "`,
-    char Side `" ++ [20080; 21334; 26041; 21521]%N ++ runes_of_ascii "`,
-    char OrderType `" ++ [35746; 21333; 31867; 22411]%N ++ runes_of_ascii "`,
-    u64 Price `" ++ [20215; 26684]%N ++ runes_of_ascii "`,
-    u32 Qty `" ++ [25968; 37327]%N ++ runes_of_ascii "`,
-    repeat string ExtraInfo `" ++ [38468; 21152; 20449; 24687]%N ++ runes_of_ascii "`,
-    repeat SubOrder {
-    		char[16] ClOrdID `" ++ [23376; 35746; 21333; 21495]%N ++ runes_of_ascii "`,
-    		u64 Price `" ++ [23376; 35746; 21333; 20215; 26684]%N ++ runes_of_ascii "`,
-    		u32 Qty `" ++ [23376; 35746; 21333; 25968; 37327]%N ++ runes_of_ascii "`,
-    	},
-}
-
-packet RiskControlResponse {
-    string UniqueOrderId `" ++ [21807; 19968; 35746; 21333; 21495]%N ++ runes_of_ascii "`,
-    i32 Status `" ++ [29366; 24577]%N ++ runes_of_ascii "`,
-    string Msg `" ++ [32467; 26524; 20449; 24687]%N ++ runes_of_ascii "`,
-    repeat Detail,
-}
-
-packet Detail {
-    string RuleName `" ++ [35268; 21017; 21517; 31216]%N ++ runes_of_ascii "`,
-    u16 Code `" ++ [21407; 22240; 20195; 30721]%N ++ runes_of_ascii "`,
-}")).
-Eval vm_compute in ("<<<M8>>>" ++ check (runes_of_ascii "// @lengthOf(
-packet Pad { zchar[
-    0 ]Header @calculatedFrom(
-""a	b"" ) // " ++ [27880; 37322]%N ++ runes_of_ascii "
-`say ""hi""` , @calculatedFrom(
-    ""a\""b"" // a // b
-)  body @lengthOf( body// `tick` ""quote"" 'q'
-)`say ""hi""` , u16 stringy@lengthOf(
-    // trailing space 
-    trueish ) , @lengthOf( rootA) f64 Foo `say ""hi""` // c
-,u16 Z9_ , x_y_z , }
-    MetaData metadata { uint64 x , trueish chars//
-,
-    asx lengthOf `u8 x,`  ,
-} options { body // a // b
-=	""packet"" } root
-    packet MetaDataX {zchar[
-42	]
-a1
-,Packet x_y_z // " ++ [27880; 37322]%N ++ runes_of_ascii "
-, u8 Foo
-    `u8 x,` , u64
-//	t
-/// triple
-tag, @tag( 1 //x
-)  string x_y_z @calculatedFrom( ""x y"" ) ,f32 Logon	, _x ,charz // a // b
-{
-    rootA metadata `crlf
-line`
-    , Header @calculatedFrom( ""\" ++ [233]%N ++ runes_of_ascii """ ) `` ,
-i64_`line1
-line2`
-    // @lengthOf(
-    , } ,@lengthOf(
-a1// `tick` ""quote"" 'q'
-) string
-As	`doc`
-    , @tag(
-1 ) match As
-    as	trueish
-    //	t
-    {
-    [ ""`tick`""
-    // trailing space 
-    ] :charz,  ""packet"": asx , 42  :
-packetx, [ ""a\\"" ] :
-u }
-,
-}
-/// triple
-")).
-Eval vm_compute in ("<<<M196>>>" ++ check (runes_of_ascii "root  packet u { match //x
-T as body// c
-{
-[
-""a\""b""
-    , 3 ] :
-stringy  ""a	b"" : charz // a // b
-,
-    10:  lengthOf// " ++ [128512]%N ++ runes_of_ascii " emoji
-, ""CRC32"" : falsey
-,
-    0123456789 : _x ,
-    } , body @lengthOf( i64_ )
-, u64 chars
-`u8 x,` ,T {i64_ string_,
-    u32 metadata , zchar[ 1
-]Z9_,}
-    // c
-    ,@calculatedFrom( ""a\\"" ) rootA // " ++ [128512]%N ++ runes_of_ascii " emoji
-x_y_z
-`u8 x,` ,
-    zchar[ 007 ]body @calculatedFrom(
-""\n""
-) ,
-    @leftPad (
-'0') @rightPad
-    ( '0' )
-@calculatedFrom( """ ++ [233]%N ++ runes_of_ascii "t" ++ [233]%N ++ runes_of_ascii """
-    )	repeat uint64 A	, repeat  u8x
-    { match
-o
-as
-x
-    {
-    10	:charz
-// " ++ [27880; 37322]%N ++ runes_of_ascii "
-// " ++ [27880; 37322]%N ++ runes_of_ascii "
-,""a	b"": matchKey
-, ""x y""
-:
-    trueish ,[ """ ++ [233]%N ++ runes_of_ascii "t" ++ [233]%N ++ runes_of_ascii """ ] : zchar,""1"" : charz // " ++ [27880; 37322]%N ++ runes_of_ascii "
-,
-[ ""a\""b"" ,
-""abc""
-, ""a\\"", ""abc"" ,
-// packet A { u8 x, }
-// " ++ [128512]%N ++ runes_of_ascii " emoji
-""""
-// packet A { u8 x, }
-/// triple
-] : u8x, } ,	},repeat falsey { rootA
-    tag ,
-    zchar[/// triple
-0 ] falsey ,  }
-    , charz a1 `{ , }`
-, } root
-packet /// triple
-Header{}
-")).
-Eval vm_compute in ("<<<M1336>>>" ++ check (runes_of_ascii "// top
+Eval vm_compute in ("<<<M1346>>>" ++ check (runes_of_ascii "// top
 options // c0
-{ LittleEndian
-    // c2
-= true
+{ // c1
+LittleEndian // c2
+= false
     // c4
-; StringPrefixLenType = // c7a
-  // c7b
-u16 // c8
-; // c9a
-  // c9b
-FixedStringPadChar = // c11a
-  // c11b
-' ' // c12
-; // c13
-} packet // c15
-Logon { // c17
-@leftPad // c18a
-  // c18b
-( '0'
-    // c20
-) char[ // c22
-10 ]
-    // c24
-tag7 // c25a
-  // c25b
-, }
-    // c27
-root // c28a
-  // c28b
-packet Ack
-    // c30
-{ // c31
-int32 Px // c33
-, // c34a
-  // c34b
-uint16 // c35
-count // c36a
-  // c36b
-, // c37
-string // c38
-Qty // c39
-, string
-    // c41
-OrderId
-    // c42
-, string Flags // c45a
-  // c45b
-, u8 x // c48a
-  // c48b
-, // c49a
-  // c49b
-match // c50
-x // c51
-as Body
-    // c53
-{ // c54
-[
-    // c55
-58 // c56
-, // c57a
-  // c57b
-169 ] // c59
-: // c60a
-  // c60b
-Logon
-    // c61
-, } // c63
-, } // c65a
-  // c65b
-")).
-Eval vm_compute in ("<<<M1693>>>" ++ check (runes_of_ascii "packet falsey {
-    // `tick` ""quote"" 'q'
-    repeat charz float `tab	here`,
-    char[] stringy,
-    Logon f32a,
-    char[] string_,
-    int16 _x ``,
-    match crc as stringy {
-        ""abc"" : Pad,
-        [
-            ""\n"", 10, 4294967296, 0123456789, ""abc"",
-            """ ++ [28040; 24687]%N ++ runes_of_ascii """
-        ] : i8i8,
-        10 : Header,
-        10 : calculatedFrom,
-        0123456789 : charz,
-        10 : repeatCount,
-    },
-    leftPad @lengthOf(u8x),
-    @lengthOf(a1)
-    repeat x body,
-}
-
-MetaData string_ {
-    float64 f32a,
-    zchar[255] T,
-    u32 trueish,
-    BodyLength roots `two words`,
-}
-
-// " ++ [128512]%N ++ runes_of_ascii " emoji
-//	t
-packet stringy {
-    zchar[255] Foo,
-}
-
-MetaData leftPad {
-}//
-
-options {
-    x = true;
-    zchar = """"
-}//")).
-Eval vm_compute in ("<<<M23>>>" ++ check (runes_of_ascii "MetaData lengthOf
-{ }
-MetaData falsey { // " ++ [27880; 37322]%N ++ runes_of_ascii "
-falsey i64_
-`
-`	, zchar[ 255	] u `two words` ,	BodyLength int , matchKey	i8i8 `crlf
-line` ,uint8x	asx ,
-char[]options1 ,	}packet
-    asx  {	@lengthOf( o
-)@calculatedFrom(//
-""\n"" ) char[] lengthOf  `two words`// c
-,
-    BodyLength `" ++ [233]%N ++ runes_of_ascii "` ,repeat u8x len // " ++ [27880; 37322]%N ++ runes_of_ascii "
-`doc`
-, int
-@calculatedFrom(
-""a\\""
-    ) `line1
-line2`,@lengthOf( MetaDataX
-)
-Packet packetx
-    // `tick` ""quote"" 'q'
-    , a1 {
-    match Logon	as
-// " ++ [128512]%N ++ runes_of_ascii " emoji
-/// triple
-len {	4294967296
-:matchKey , [
-1  , 10 , 10 ,
-""{,}"" , """ ++ [233]%N ++ runes_of_ascii "t" ++ [233]%N ++ runes_of_ascii """ , 0123456789]: leftPad ,  3
-    :msg_type ,
-//	t
-//x
-1 : As
-,} ,
-    chars , }
-    ,}
-")).
-Eval vm_compute in ("<<<M1383>>>" ++ check (runes_of_ascii "// top
-packet // c0a
-  // c0b
-Sub // c1
-{
-    // c2
-u8 // c3a
-  // c3b
-a
-    // c4
-, // c5
-@calculatedFrom( ""CRC16"" )
+; // c5
+ArrayPrefixLenType // c6
+=
+    // c7
+u8
     // c8
-i32 // c9
-SubSum
-    // c10
-, } // c12
-root packet // c14a
+; // c9
+FixedStringPadFromLeft // c10
+= // c11
+true // c12a
+  // c12b
+; FixedStringPadChar // c14a
   // c14b
-Frame // c15
-{
+=
+    // c15
+'0'
     // c16
-u16
-    // c17
-MsgType // c18a
-  // c18b
-, // c19
-u16 // c20a
-  // c20b
-BodyLen // c21a
-  // c21b
-@lengthOf( Body ) , // c25a
+; // c17a
+  // c17b
+} // c18
+packet Heartbeat // c20
+{
+    // c21
+string lastPx , // c24
+uint8 // c25a
   // c25b
-Sub
-    // c26
-Body // c27
+Qty // c26
+, // c27
+i64 Acct // c29
 ,
-    // c28
-string // c29a
-  // c29b
-note // c30a
-  // c30b
-,
-    // c31
-@calculatedFrom( // c32
-""CRC16"" ) i32 Checksum // c36a
-  // c36b
-, // c37a
+    // c30
+char[ // c31
+4
+    // c32
+]
+    // c33
+Ref , } // c36
+packet // c37a
   // c37b
-u8 // c38
-tail , }
+Fill // c38a
+  // c38b
+{ // c39a
+  // c39b
+uint8
+    // c40
+Ref
     // c41
-")).
-Eval vm_compute in ("<<<M1760>>>" ++ check (runes_of_ascii "options {
-    leftPad = 0;
-    //
-    Logon = char// `tick` ""quote"" 'q'
-    i64_ = '\x00';
-}
-
-options {
-    crc = i32;
-    matchKey = 255
-    leftPad = ' ';
-    metadata = 42;
-    packetx = 10
-}
-
-root packet A {
-    @calculatedFrom(""x y"")
-    /// triple
-    zchar[00] f32a,
-    @tag(255)
-    zchar[0123456789] a1 @lengthOf(As) `" ++ [28040; 24687; 31867; 22411]%N ++ runes_of_ascii "`,
-    int16 body,// `tick` ""quote"" 'q'
-    uint64 x @calculatedFrom(""1"") `line1
-        line2`,
-    @lengthOf(Logon)
-    char[0] float @calculatedFrom(""abc""),
-}
-
-MetaData u128 {
-}")).
-Eval vm_compute in ("<<<M301>>>" ++ check (runes_of_ascii "root packet A { repeat uint64 matchKey
-    , char[]
-    Packet , char[
-    007 ] calculatedFrom , }
-options{ Header =
-007 ;
-float =
-    true} packet chars { repeat
-chars ,@rightPad
-    ( '0' ) chars f32a
-    `line1
-line2`
-, int16
-u8x , @tag( 4294967296 ) @rightPad
-( )
-u64 packetx@calculatedFrom(""it's"" )
+, // c42a
+  // c42b
+Heartbeat // c43
 ,
-@calculatedFrom( ""\n"" ) o@calculatedFrom(""a\""b"" ), Logon	@lengthOf( BodyLength
+    // c44
+f32 // c45
+OrderId , // c47
+repeat // c48a
+  // c48b
+f32 // c49
+x // c50a
+  // c50b
+, } // c52
+root // c53
+packet // c54a
+  // c54b
+Order
+    // c55
+{ // c56a
+  // c56b
+zchar[ // c57a
+  // c57b
+2
+    // c58
+]
+    // c59
+OrderId // c60a
+  // c60b
+,
+    // c61
+zchar[ // c62
+2 // c63
+] // c64
+Acct
+    // c65
+,
+    // c66
+zchar[ // c67
+1
+    // c68
+]
+    // c69
+Note // c70a
+  // c70b
+, // c71a
+  // c71b
+zchar[
+    // c72
+9 ] Qty // c75a
+  // c75b
+,
+    // c76
+string // c77a
+  // c77b
+price // c78a
+  // c78b
+,
+    // c79
+string
+    // c80
+tag7 , u32
+    // c83
+x
+    // c84
+,
+    // c85
+match // c86
+x // c87a
+  // c87b
+as Body // c89a
+  // c89b
+{ // c90
+123 // c91
+:
+    // c92
+Fill , // c94
+112 // c95
+:
+    // c96
+Heartbeat // c97a
+  // c97b
+, // c98a
+  // c98b
+} // c99
+, // c100a
+  // c100b
+u32
+    // c101
+seqNo // c102
+@calculatedFrom( // c103
+""CRC32"" // c104
+)
+    // c105
+,
+    // c106
+}
+    // c107
+")).
+Eval vm_compute in ("<<<M282>>>" ++ check (runes_of_ascii "// a // b
+packet stringy	{
+string zchar ,
+    repeat T
+, match
+u
+as  charz {
+007
+    //x
+    :
+//	t
+// @lengthOf(
+float// trailing space 
+,""\" ++ [233]%N ++ runes_of_ascii """ : Logon ""a	b"":
+//	t
+//	t
+pack, } , match uint8x as
+    // " ++ [27880; 37322]%N ++ runes_of_ascii "
+    roots
+{
+1
+    // `tick` ""quote"" 'q'
+    : len
+,	}
+//x
+// " ++ [27880; 37322]%N ++ runes_of_ascii "
+, }packet zchar {	roots options1
+    //x
+    `// not a comment` , int64 As
+,
+    i16 float
+    @lengthOf( falsey
+    // " ++ [27880; 37322]%N ++ runes_of_ascii "
+    ) `a\`
+    , int64 msg_type `tab	here`
+, @tag(0
+    // `tick` ""quote"" 'q'
+    ) repeat uint8x ,
+    @lengthOf(x
+    ) repeat metadata
+    , zchar[ 0 ]	int , uint64
+    zchar ,zchar[7 // " ++ [27880; 37322]%N ++ runes_of_ascii "
+]
+msg_type
+,
+@calculatedFrom(
+/// triple
+// " ++ [27880; 37322]%N ++ runes_of_ascii "
+""" ++ [28040; 24687]%N ++ runes_of_ascii """ ) crc
+, }
+root packet zchar { repeat
+leftPad,
+} packet
+A{
+@lengthOf(
+    string_ )	x@lengthOf( options1) `two words`,  string
+len ,	}packet	falsey{ i64_ @calculatedFrom(	""{,}"" ) , repeat
+string chars
+, zchar[ 7]calculatedFrom
+, Header
+    { char u`two words`, repeat char[] // c
+tag
+    `say ""hi""`	, Z9_
+    @lengthOf(
+T ) `line1
+line2` , } , msg_type @calculatedFrom( ""// no comment""
+    ) , @rightPad (// packet A { u8 x, }
+'\x00' )
+@lengthOf( asx )
+falsey
+,
+    } // packet A { u8 x, }")).
+Eval vm_compute in ("<<<M1341>>>" ++ check (runes_of_ascii "options {
+    FixedStringPadFromLeft = true;
+    FixedStringPadChar = '0';
+}
+packet Leg {
+    InPrice0 {
+        repeat string clOrdID,
+        int16 msgKind,
+        zchar[5] Px,
+    },
+    i16 f1,
+    repeat f64 Side2,
+    string Acct,
+}
+packet Cancel {
+    zchar[4] clOrdID,
+    string seqNo,
+    Leg,
+    @leftPad('0') char[11] OrderId,
+}
+packet Quote {
+    repeat char[4] sym,
+    f64 OrderId,
+    repeat Leg,
+    repeat i64 f1,
+    int16 Note,
+    zchar[3] count,
+}
+root packet Ack {
+    @leftPad(' ') char[10] sym,
+    InPx60 {
+        Cancel,
+        repeat char[1] f1,
+        string Tail,
+        repeat InNote55 {
+            int8 count,
+            f64 f1,
+            repeat Cancel,
+        },
+        char[] tag7,
+        repeat string msgKind,
+    },
+    u8 lastPx,
+    match lastPx as Body {
+        152 : Quote,
+        173 : Cancel,
+        4 : Leg,
+    },
+    u16 Ref @calculatedFrom(""CRC32""),
+}
+")).
+Eval vm_compute in ("<<<M1371>>>" ++ check (runes_of_ascii "options {
+    FixedStringPadFromLeft = true;
+    FixedStringPadChar = '0';
+}
+packet Leg {
+    repeat InSym93 {
+        zchar[3] Acct,
+        string Side2,
+        i32 Flags,
+        f32 Note,
+        i32 msgKind,
+    },
+    f64 Note,
+    uint16 Px,
+}
+packet Quote {
+    zchar[2] OrderId,
+}
+packet Ack {
+    repeat string lastPx,
+    zchar[4] price,
+    uint32 OrderId,
+    Quote,
+    int8 Acct,
+}
+packet Fill {
+    repeat Leg,
+    @rightPad('0') char[11] Note,
+    f64 Px,
+    @rightPad('\x00') char[5] Flags,
+    zchar[9] x,
+    string msgKind,
+}
+root packet Order {
+    Leg,
+    repeat Ack,
+    @rightPad('\x00') char[3] Side2,
+    repeat char[1] seqNo,
+    u16 clOrdID,
+    match clOrdID as Body {
+        198 : Leg,
+        23 : Quote,
+        13 : Ack,
+        159 : Fill,
+    },
+    u32 venue @calculatedFrom(""CRC32""),
+}
+")).
+Eval vm_compute in ("<<<M1365>>>" ++ check (runes_of_ascii "
+options{	StringPrefixLenType=
+
+u8 
+;
+ArrayPrefixLenType=
+
+u32
+
+    ;  FixedStringPadFromLeft
+=
+true ;
+	FixedStringPadChar =
+
+    ' '
+; 
+}packet 
+Leg	{  }
+packet Heartbeat	{ 
+zchar[6
+    ]	msgKind
+    ,
+    @rightPad ( '0' )
+char[3
+]
+Qty , zchar[ 9]Side2
+
+,i8 Acct ,
+	}
+
+packet
+Logout
+{
+	int8
+
+x
+,
+} packet Order {
+    char[]Acct
+	, zchar[8 ] count
+
+    ,	u32 OrderId
+,	uint8 lastPx	,
+
+    u16 clOrdID
+,
+	zchar[ 7]Note, 
+}	root 
+packet
+	Reject {@leftPad (	' '
+) 
+char[ 
+8] 
+Side2, i8 clOrdID ,
+	repeat	f32
+x
+
+    ,
+
+    u32
+
+    lastPx
+
+, match	lastPx
+
+    as
+
+Body
+    {
+    [
+
+    30
+
+    ,
+	147 
+]	:
+
+Heartbeat ,	134 : 
+Leg  , 183
+
+:  Logout	,
+
+    40	:  Order
+, } 
+, 
+u16
+Ref@calculatedFrom(
+""CRC32""
+
+    ), 
+}
+")).
+Eval vm_compute in ("<<<M1658>>>" ++ check (runes_of_ascii "options {
+}
+
+packet i8i8 {
+    @tag(3)
+    x @calculatedFrom(""it's""),
+    @lengthOf(f32a)
+    match rootA as uint8x {
+        0 : string_,
+        42 : Packet,
+    },
+    @leftPad('\x00')
+    i64_ packetx `u8 x,`,
+    @calculatedFrom(""x y"")
+    matchKey {
+        len,
+    },
+    @lengthOf(matchKey)
+    @calculatedFrom(""abc"")
+    @lengthOf(x_y_z)
     /// triple
-    )
+    repeat metadata `line1
+    line2`,
+    lengthOf repeatCount,/// triple
+    int32 roots @calculatedFrom(""`tick`"") `" ++ [233]%N ++ runes_of_ascii "`,
+    zchar[1] Packet @calculatedFrom(""// no comment""),
+}
+
+packet options1 {
+    @lengthOf(uint8x)
+    A @calculatedFrom(""it's"") `doc`,
+}
+
+root packet crc {
+    char[65535] chars,
+}")).
+Eval vm_compute in ("<<<M366>>>" ++ check (runes_of_ascii "packet
+// @lengthOf(
+//	t
+f32a { char[] Header`" ++ [233]%N ++ runes_of_ascii "` ,  @tag( 00
+) zchar[ 255  ] int
+    , @lengthOf(	trueish)
+x @calculatedFrom( """ ++ [128512]%N ++ runes_of_ascii """
+    )`say ""hi""` , @leftPad
+    (	'\x00'
+) @lengthOf( //	t
+u128 )//	t
+repeat BodyLength ,
+falsey @lengthOf( uint8x ), //
+@lengthOf( rootA) repeat uint8 T  `a\` , repeat  string
+lengthOf
+`it's` , @leftPad(
+    '\x00' )
+zchar[ 42
+// packet A { u8 x, }
+// a // b
+] u`say ""hi""` ,// a // b
+repeat packetx
 // a // b
 // packet A { u8 x, }
-,}options {
-    }
+{
+Pad  f32a
+,// trailing space 
+i8i8 msg_type `say ""hi""` , i64_ repeatCount , char[]chars , } ,}MetaData _x
+{  x matchKey `" ++ [28040; 24687; 31867; 22411]%N ++ runes_of_ascii "`, }")).
+Eval vm_compute in ("<<<M1427>>>" ++ check (runes_of_ascii "
+
+  options
+	{StringPrefixLenType	= u8
+
+; ArrayPrefixLenType 
+=
+
+u8
+	; FixedStringPadFromLeft  =  false	;
+FixedStringPadChar = ' ';
+
+    }  packet
+Ack
+
+{ char[]
+
+    tag7	,
+
+    }packet Reject
+
+{
+	InSym61
+
+{
+	repeat  Ack
+
+    ,zchar[
+    4 ]
+	f1, } ,}
+packet Logout	{ char[ 4	]
+    clOrdID
+
+,} root  packet	Cancel	{
+@leftPad
+( ' '
+) 
+char[ 
+10
+    ] price  ,
+	u8
+x ,
+    u32
+    venue @lengthOf(	Body ), match 
+x as	Body
+{[ 92 ,
+	175
+	]:
+Logout
+
+,26
+:	Reject,
+
+    144
+:Ack
+
+    , 
+}  ,u16
+
+count	@calculatedFrom( ""CRC32""
+	)	,
+} ")).
+Eval vm_compute in ("<<<M1885>>>" ++ check (runes_of_ascii "
+MetaData BodyLength{zchar[	65535
+	]	As
+	`crlf
+line`,	u16 charz
+
+    ,body
+
+len , zchar	msg_type ,
+	uint64	metadata,
+
+} root 
+packet	//
+      matchKey
+
+{ 
+repeat
+i8i8 `{ , }`
+
+, } MetaData
+
+a1
+{	i8i8
+
+    Pad 
+`it's` 
+, 
+  // trailing space 
+
+// `tick` ""quote"" 'q'
+	int64
+	    // " ++ [128512]%N ++ runes_of_ascii " emoji
+  roots
+`doc`  ,Foo
+
+    BodyLength`u8 x,`
+	,
+}
+    packet _x{lengthOf
+
+{
+pack `" ++ [28040; 24687; 31867; 22411]%N ++ runes_of_ascii "`	,
+    string_	// @lengthOf(
+
+  ,
+
+repeat  //
+
+rootA len
+
+, 
+zchar[
+    1 ]
+u8x
+    ,	}, }
+
 ")).
-Eval vm_compute in ("<<<M1834>>>" ++ check (runes_of_ascii "packet matchKey {
-    float32 float,
-    @calculatedFrom(""a\\"")
-    @rightPad('\x00')
-    i16 tag @calculatedFrom(""abc""),
-    repeat zchar[255] pack,
-    @lengthOf(Z9_)
-    tag,
-}// trailing space 
-
-root packet rootA {
-    repeat metadata {
-        Logon,
+Eval vm_compute in ("<<<M1641>>>" ++ check (runes_of_ascii "packet metadata {
+    @rightPad()
+    zchar[0123456789] i64_ @calculatedFrom(""\n""),
+    @leftPad(' ')
+    zchar[255] MetaDataX `{ , }`,
+    @rightPad(' ')
+    @calculatedFrom(""abc"")
+    // " ++ [128512]%N ++ runes_of_ascii " emoji
+    @lengthOf(matchKey)
+    repeat char[42] packetx `" ++ [233]%N ++ runes_of_ascii "`,
+    trueish @calculatedFrom(""packet"") `a\`,
+    matchKey int `" ++ [28040; 24687; 31867; 22411]%N ++ runes_of_ascii "`,
+    @tag(0)
+    len {
+        char[65535] Header,
     },
-    @tag(10)
-    @lengthOf(A)
-    @tag(007)
-    u32 options1,
-    match float as u {
-        0123456789 : u8x,
-    },
-}// " ++ [27880; 37322]%N ++ runes_of_ascii "
-
-root packet lengthOf {
+    @lengthOf(f32a)
+    zchar[10] trueish `crlf
+    line`,
 }")).
-Eval vm_compute in ("<<<M1690>>>" ++ check (runes_of_ascii "packet
+Eval vm_compute in ("<<<M1675>>>" ++ check (runes_of_ascii "
+packet
+	a1
+{	char[]
 
-    a1 {
+charz
+    @calculatedFrom( 
+	//x
 
-    @leftPad
-    (
-) float 
-@lengthOf( 
-uint8x )
+	""" ++ [28040; 24687]%N ++ runes_of_ascii """)	, uint8x `crlf
+line` 
 ,
 
-}packet	Logon
-	{ 
-char Logon
-@calculatedFrom(	""a\\""
-)
-    , T	stringy
-,  
-      //
-		// c
-  repeat uint8 stringy
-	`two words`	,
-} MetaData
+    uint64 
+T `line1
+line2`
+, @leftPad(
+'0' ) 
+	// a // b
+		/// triple
+    	@calculatedFrom(""abc"" )
+@tag(3 ) match
 
-    charz  {
+    int// a // b
+    	as len {  0 :chars
+	,	[ 10
 
-u tag `
-` 
-,a1
-falsey  ,  //x
-Z9_
-    matchKey, f64 lengthOf `a\`// @lengthOf(
-	,  f32a roots
-
-``
+    ,
+	""a\\""  ,
+1  , 0  ,
+10
 ,
 
-float64  x_y_z // @lengthOf(
-,
-	}")).
-Eval vm_compute in ("<<<M323>>>" ++ check (runes_of_ascii "options{ }
-MetaData  string_ // `tick` ""quote"" 'q'
-{ u32
-matchKey `u8 x,`,
-    string  MetaDataX , uint8
-Logon, uint64 options1
-, char[ 00 ] len
-// `tick` ""quote"" 'q'
-// trailing space 
-`tab	here` , u8
-options1
-, }// a // b
-packet a1 { chars ,
-char[]
-i64_ @lengthOf(
-    // " ++ [27880; 37322]%N ++ runes_of_ascii "
-    stringy
-) ,char T,repeat i8 charz
-`a\`
-,
-}
+0]
+: 
+body ,
+
+    007 
+: 
+    // a // b
+		rootA  // a // b
+  , }
+    ,falsey options1 ,} ")).
+Eval vm_compute in ("<<<M1545>>>" ++ check (runes_of_ascii "// top
+root packet _x {
+    // c3
+    match Foo as Z9_ {
+        // c8
+        ""a	b"" : Pad,
+        // c12
+    },// c14
+    repeat x `line1
+    line2`,// c18
+    @rightPad(' ')
+    // c22
+    @calculatedFrom(""a\\"")
+    // c25
+    metadata MetaDataX,// c28
+    @tag(0)
+    // c31
+    Logon int ``,// c35
+}// c36
+
+options {
+    // c38
+    T = '\x00'// c41
+}// c42")).
+Eval vm_compute in ("<<<M285>>>" ++ check (runes_of_ascii "packet zchar { @calculatedFrom(
+    ""packet"" )
+    @lengthOf( body ) @lengthOf(A )
+    repeat /// triple
+u128
+    { f32a
+chars `` , repeat x_y_z `tab	here`	, // c
+} , // " ++ [27880; 37322]%N ++ runes_of_ascii "
+repeat
+Logon {// " ++ [27880; 37322]%N ++ runes_of_ascii "
+u@calculatedFrom( // `tick` ""quote"" 'q'
+""// no comment"") //
+`two words` , char
+    u8x , uint32  uint8x  , } , int8
+    asx ``,}
 ")).
-Eval vm_compute in ("<<<M1497>>>" ++ check (runes_of_ascii "
+Eval vm_compute in ("<<<M1542>>>" ++ check (runes_of_ascii "
+// top
+packet // c0
+  	Inner // c1
+	{ 	 // c2
+	  u8// c3a
+    // c3b
+	a	// c4
 
-  // top
-    packet	// c0
+, 
+    // c5
 
-Inner // c1
-	{ // c2
-	u8 	 // c3a
-	  // c3b
-    	a // c4
-	, 
+	} 	 // c6
+  root // c7
+packet// c8a
+// c8b
+    	P  // c9
 
-// c5
-	  }  // c6
-      root// c7
-	packet	// c8a
-  // c8b
-P// c9
-{// c10a
-    // c10b
+{  // c10a
+  // c10b
+	repeat // c11a
 
-repeat  // c11a
-  // c11b
-	Inner items  // c13
-	, // c14
-u8 
-// c15
-    	x  ,	// c17a
-	// c17b
-  }	// c18
+	// c11b
+Inner  items // c13
+    , // c14
+    	u8 
+
+    // c15
+
+x ,	// c17a
+
+  // c17b
+    } // c18
 ")).
-Eval vm_compute in ("<<<M177>>>" ++ check (runes_of_ascii "root
-packet Logon {
-    @rightPad
-(// @lengthOf(
-'0' ) repeat
-    charz // " ++ [27880; 37322]%N ++ runes_of_ascii "
-{// " ++ [128512]%N ++ runes_of_ascii " emoji
-Z9_ `{ , }` , string string_ `say ""hi""` , repeat int8  rootA ,	match Foo	as
-pack {
-[ 42
-// c
-/// triple
-, 0 ] :u, ""a\""b"" : int
+Eval vm_compute in ("<<<M1322>>>" ++ check (runes_of_ascii "packet
+
+    P1
+    { u8
+
+    a 
 ,
-}
-// c
-// `tick` ""quote"" 'q'
+} packet
+
+P2  { 
+P1
+	,
+    }  packet	P3 {	P2  ,
+
+P1	,}
+	packet  P4
+
+{ 
+repeat  P3
+	,
+
+P2,
+
+}root
+
+    packet
+    P5 {
+P4,
+
+    P3
+
 ,
-} , }")).
-Eval vm_compute in ("<<<M1382>>>" ++ check (runes_of_ascii "packet Sub {
+
+    P1 , u8	K
+    ,match
+    K as Body {
+	4:P4 ,
+3
+
+: P3 ,
+	2 : P2 , 1
+: P1	,
+}	,  }")).
+Eval vm_compute in ("<<<M1385>>>" ++ check (runes_of_ascii "packet Sub {
     u8 a,
     @calculatedFrom(""CRC16"") i32 SubSum,
 }
@@ -686,64 +803,71 @@ root packet Frame {
     u8 tail,
 }
 ")).
-Eval vm_compute in ("<<<M10>>>" ++ check (runes_of_ascii "MetaData //	t
-x{
-    } packet rootA
-//x
-//	t
-{ i64	As
-//x
-// @lengthOf(
-@lengthOf(
-    A )
-`// not a comment` ,
-}
-    options { asx =	string ; i8i8 =zchar[
-0123456789 ];	Foo =10 ; As =true
-; }
+Eval vm_compute in ("<<<M1927>>>" ++ check (runes_of_ascii "// top
+MetaData uint8x {
+    // c2
+    char[] f32a `// not a comment`,// c6
+    float32 roots,// c9
+    char[7] u8x,// c14
+    zchar[10] f32a,// c19
+    u64 pack,// c22
+    u16 pack,// c25
+}// c26")).
+Eval vm_compute in ("<<<M309>>>" ++ check (runes_of_ascii "packet
+    // `tick` ""quote"" 'q'
+    _x {//
+repeat zchar[ 1 ] metadata
+    ,@leftPad
+    ( ' ' ) @lengthOf( T )@lengthOf(
+Z9_ )
+    char[] As// @lengthOf(
+,string f32a  , }
 ")).
-Eval vm_compute in ("<<<M1281>>>" ++ check (runes_of_ascii "// top
-root // c0a
-  // c0b
-packet P {
-    // c3
-u16
-    // c4
-a
-    // c5
+Eval vm_compute in ("<<<M145>>>" ++ check (runes_of_ascii "MetaData //x
+Packet
+/// triple
+// " ++ [27880; 37322]%N ++ runes_of_ascii "
+{	u
+/// triple
+// c
+lengthOf `say ""hi""`
+    , } MetaData metadata {
+    crc chars `crlf
+line` , asx f32a /// triple
 ,
-    // c6
-u32 // c7a
-  // c7b
-Sum // c8
-@calculatedFrom( // c9a
-  // c9b
-""CRC32"" ) , } // c13
-")).
-Eval vm_compute in ("<<<M453>>>" ++ check (runes_of_ascii "packet uint8x
-{ match pack
-    as msg_type	{
-    0123456789 :	float
-}
-@lengthOf(
-} packet //	t
-a1
-    { } options {packetx
-    = '\x00'	; u128= ""a	b""  ; }
-")).
-Eval vm_compute in ("<<<M1714>>>" ++ check (runes_of_ascii "MetaData chars {
 }
 
-options {
-    As = true;
-    As = false;
-    stringy = true
-}
+")).
+Eval vm_compute in ("<<<M1664>>>" ++ check (runes_of_ascii "packet
+A
+{ 
+match
+k
+as
+n 
+{ [
+1 ,""bb""  , 007  , 
+""d""
+    , 5 
+, ""f""
 
-packet repeatCount {
-    string float @lengthOf(matchKey) `say ""hi""`,
-}")).
-Eval vm_compute in ("<<<M544>>>" ++ check (runes_of_ascii "packet uint8x
+    ,
+
+    7
+
+, ""h""
+	, 9 ,""j""
+
+    ,
+    11  , 
+""l"" 
+]	:
+B,
+    2:
+C } ,
+
+} ")).
+Eval vm_compute in ("<<<M526>>>" ++ check (runes_of_ascii "packet uint8x
 { match pack
     as msg_type	{
     0123456789 :	float
@@ -752,283 +876,234 @@ Eval vm_compute in ("<<<M544>>>" ++ check (runes_of_ascii "packet uint8x
 } packet //	t
 a1
     { } options {packetx
-    = " ++ [65279]%N ++ runes_of_ascii " '\x00'	; u128= ""a	b""  ; }
+    = '\x00'	; u128= ""a	b""  ; ; }
 ")).
-Eval vm_compute in ("<<<M447>>>" ++ check (runes_of_ascii "packet uint8x
+Eval vm_compute in ("<<<M428>>>" ++ check (runes_of_ascii "packet uint8x
 { match pack
-    as msg_type	{
+    as msg_type	}
     0123456789 :	float
-,
 }
+,
 } packet //	t
 a1
     { } options {packetx
     = '\x00'	; u128= ""a	b""  ; }
 ")).
-Eval vm_compute in ("<<<M475>>>" ++ check (runes_of_ascii "packet uint8x
+Eval vm_compute in ("<<<M468>>>" ++ check (runes_of_ascii "packet uint8x
 { match pack
     as msg_type	{
     0123456789 :	float
 }
 ,
 } packet //	t
-a1
-    {  options {packetx
+,
+    { } options {packetx
     = '\x00'	; u128= ""a	b""  ; }
 ")).
-Eval vm_compute in ("<<<M668>>>" ++ check (runes_of_ascii "// @len'1'gthOf(
+Eval vm_compute in ("<<<M410>>>" ++ check (runes_of_ascii "packet uint8x
+{ match 
+    as msg_type	{
+    0123456789 :	float
+}
+,
+} packet //	t
+a1
+    { } options {packetx
+    = '\x00'	; u128= ""a	b""  ; }
+")).
+Eval vm_compute in ("<<<M677>>>" ++ check (runes_of_ascii "// @lengthOf(
 packet i8i8 { u128 o , }
+options { MetaDataX = true;
+    BodyLength =""packet"" x_y_z 007 =
+crc //x
+= ""abc"" ;
+    msg_type =
+i16 }")).
+Eval vm_compute in ("<<<M699>>>" ++ check (runes_of_ascii "// @lengthOf(
+packet i8i8 { a" ++ [769]%N ++ runes_of_ascii "b o , }
 options { MetaDataX = true;
     BodyLength =""packet"" x_y_z= 007
 crc //x
 = ""abc"" ;
     msg_type =
 i16 }")).
-Eval vm_compute in ("<<<M723>>>" ++ check (runes_of_ascii "// @lengthOf(
+Eval vm_compute in ("<<<M716>>>" ++ check (runes_of_ascii "// @lengthOf(
 packet i8i8 { u128 o , }
-options { MetaD?ataX = true;
+ { MetaDataX = true;
     BodyLength =""packet"" x_y_z= 007
 crc //x
 = ""abc"" ;
     msg_type =
 i16 }")).
-Eval vm_compute in ("<<<M1921>>>" ++ check (runes_of_ascii "packet A {
-    u16 len @lengthOf(body) `a
-        
-        b`,
-    u32 crc @calculatedFrom(""CRC32"") `a
-        
-        b`,
-    string body,
+Eval vm_compute in ("<<<M1776>>>" ++ check (runes_of_ascii "root packet u8x {
+}
+
+options {
+    o = zchar[1]
+    Packet = u32;
+    uint8x = ""a\\"";
+    /// triple
+    u8x = 0;
+    crc = ""\n"";
 }")).
-Eval vm_compute in ("<<<M1616>>>" ++ check (runes_of_ascii "packet
-
-A
-    {
-match 
-k as
-	n{
-[1 ,	22  ,""c c""
-
-    ,	4 
-,
-
-5, ""f"",
-
-    7  ,  8	,""i""
-, 
-10 ,  11]
-    :B
-
-    2 : 
-C }
-	,
+Eval vm_compute in ("<<<M1547>>>" ++ check (runes_of_ascii "MetaData leftPad {
+    chars MetaDataX,
 }
 
-")).
-Eval vm_compute in ("<<<M304>>>" ++ check (runes_of_ascii "packet
-    // " ++ [27880; 37322]%N ++ runes_of_ascii "
-    Logon {
-repeatCount @lengthOf( roots ) , @tag(0) repeat zchar[007] crc , rootA a1 `{ , }` , string_ `" ++ [233]%N ++ runes_of_ascii "`
-,  }
-")).
-Eval vm_compute in ("<<<M1654>>>" ++ check (runes_of_ascii "packet B {
-    u8 a,
+packet repeatCount {
+    char[255] uint8x `" ++ [233]%N ++ runes_of_ascii "`,
 }
 
-root packet P {
-    u8 K,
-    u64 L @lengthOf(Body),
-    match K as Body {
-        1 : B,
+MetaData pack {
+    As Foo,
+}")).
+Eval vm_compute in ("<<<M1152>>>" ++ check (runes_of_ascii "MetaData leftPad { chars MetaDataX
+// c
+, } packet repeatCount { char[ 255 ] uint8x `" ++ [233]%N ++ runes_of_ascii "` , } MetaData pack { As Foo , }")).
+Eval vm_compute in ("<<<M1184>>>" ++ check (runes_of_ascii "MetaData leftPad { chars MetaDataX , } packet repeatCount { char[ 255 ] uint8x `" ++ [233]%N ++ runes_of_ascii "` , } MetaData pack { As
+// c
+Foo , }")).
+Eval vm_compute in ("<<<M914>>>" ++ check (runes_of_ascii "packet A {
+  match k as n {
+    [""a"", ""bb"", 007, ""d"", ""e"", 66, ""g"", ""h"", 9, ""j"", ""k"", 12] : B,
+    2 : C
+  },
+}")).
+Eval vm_compute in ("<<<M142>>>" ++ check (runes_of_ascii "packet
+len
+    // " ++ [128512]%N ++ runes_of_ascii " emoji
+    { int64 a1	@lengthOf(x_y_z )	, }
+// c
+// trailing space 
+packet x_y_z { }
+
+")).
+Eval vm_compute in ("<<<M1716>>>" ++ check (runes_of_ascii "options {
+    _x = ""`tick`"";
+    matchKey = ""it's"";
+    options1 = u16;
+    stringy = true
+    // c
+}")).
+Eval vm_compute in ("<<<M855>>>" ++ check (runes_of_ascii "packet A {
+  match k as n {
+    [""a"", ""bb"", ""c c"", ""d"", ""e"", ""f"", ""g"", ""h""] : B
+    2 : C
+  },
+}")).
+Eval vm_compute in ("<<<M1527>>>" ++ check (runes_of_ascii "packet A {
+    match k as n {
+        [""a"", ""bb"", 007, ""d"", ""e""] : B,
+        2 : C,
     },
 }")).
-Eval vm_compute in ("<<<M1157>>>" ++ check (runes_of_ascii "MetaData leftPad { chars MetaDataX , } packet // c
-repeatCount { char[ 255 ] uint8x `" ++ [233]%N ++ runes_of_ascii "` , } MetaData pack { As Foo , }")).
-Eval vm_compute in ("<<<M1660>>>" ++ check (runes_of_ascii "
-packet
-B
-	{ 
-u8 a
-    ,
-    string
+Eval vm_compute in ("<<<M1493>>>" ++ check (runes_of_ascii "packet A
+    { 
+Inner { 
+u8  x `a
+    b
+  c`,  Deep
 
-s	,
-}
-    root
-packet
-
-    P
-{
-u16
-L  @lengthOf(B 
-)  ,	B,
-
-u8
-
-    t ,
-}
-")).
-Eval vm_compute in ("<<<M290>>>" ++ check (runes_of_ascii "options {
-    /// triple
-    asx // " ++ [27880; 37322]%N ++ runes_of_ascii "
-= 3 } MetaData T
-{  f32/// triple
-Pad `u8 x,` , } // `tick` ""quote"" 'q'")).
-Eval vm_compute in ("<<<M909>>>" ++ check (runes_of_ascii "packet A {
-  match k as n {
-    [1, ""bb"", 007, ""d"", 5, ""f"", 7, ""h"", 9, ""j"", 11, ""l""] : B
-    2 : C
-  },
-}")).
-Eval vm_compute in ("<<<M484>>>" ++ check (runes_of_ascii "packet uint8x
-{ match pack
-    as msg_type	{
-    0123456789 :	float
-}
-,
-} packet //	t
-a1
-    { }")).
-Eval vm_compute in ("<<<M1267>>>" ++ check (runes_of_ascii "packet B {
-    u8 a,
-    string s,
-}
-root packet P {
-    u16 L @lengthOf(B),
-    B,
-    u8 t,
-}
-")).
-Eval vm_compute in ("<<<M635>>>" ++ check (runes_of_ascii "
-packet
-    asx {'1'match u128 as lengthOf
-{
-//	t
-// `tick` ""quote"" 'q'
-255 : x ,
-    } ,	}")).
-Eval vm_compute in ("<<<M637>>>" ++ check (runes_of_ascii "
-~packet
-    asx {match u128 as lengthOf
-{
-//	t
-// `tick` ""quote"" 'q'
-255 : x ,
-    } ,	}")).
-Eval vm_compute in ("<<<M587>>>" ++ check (runes_of_ascii "
-packet
-    asx {match u128 as lengthOf
-
-//	t
-// `tick` ""quote"" 'q'
-255 : x ,
-    } ,	}")).
-Eval vm_compute in ("<<<M621>>>" ++ check (runes_of_ascii "
-packet
-    asx {match u128 as lengthOf
-{
-//	t
-// `tick` ""quote"" 'q'
-255 : x ,
-    }")).
-Eval vm_compute in ("<<<M852>>>" ++ check (runes_of_ascii "packet A {
-  match k as n {
-    [1, 22, 007, 4, 5, 66, 7, 8] : B,
-    2 : C
-  },
-}")).
-Eval vm_compute in ("<<<M1904>>>" ++ check (runes_of_ascii "packet A {
-    // a
-    @tag(1)
-    u8 x,// b
-    // c
-    @tag(2)
-    u8 y,
-}")).
-Eval vm_compute in ("<<<M459>>>" ++ check (runes_of_ascii "packet uint8x
-{ match pack
-    as msg_type	{
-    0123456789 :	float
-}
-,")).
-Eval vm_compute in ("<<<M1856>>>" ++ check (runes_of_ascii "
-packet
-
-    A
-	{ 
-B b `a
-b`
-,
-B`a
-b` ,
-
-repeat
-
-B
-	bs
+{ u8  y 
 `a
-b` , }
-")).
-Eval vm_compute in ("<<<M788>>>" ++ check (runes_of_ascii "packet A {
-  match k as n {
-    [1, 22, 007] : B
-    2 : C
-  },
-}")).
-Eval vm_compute in ("<<<M779>>>" ++ check (runes_of_ascii "packet A {
-  match k as n {
-    [1, 22] : B
-    2 : C
-  },
-}")).
-Eval vm_compute in ("<<<M1670>>>" ++ check (runes_of_ascii "packet calculatedFrom {
-    repeat string Foo `{ , }`,
-}")).
-Eval vm_compute in ("<<<M1202>>>" ++ check (runes_of_ascii "packet body
-// c
-{ i32 f32a `{ , }` , } options { }")).
-Eval vm_compute in ("<<<M1567>>>" ++ check (runes_of_ascii "MetaData M {
-    u8 x `
-    `,
-    T t `
-    `,
-}")).
-Eval vm_compute in ("<<<M1221>>>" ++ check (runes_of_ascii "// top
-packet // c0
-x // c1
-{ // c2
-} // c3
-")).
-Eval vm_compute in ("<<<M752>>>" ++ check (runes_of_ascii "repeatCount u32 as false uint64 0 @tag(")).
-Eval vm_compute in ("<<<M197>>>" ++ check (runes_of_ascii "
-options {u8x
-=
-    ""packet"" ;	}
-")).
-Eval vm_compute in ("<<<M1579>>>" ++ check (runes_of_ascii "packet A {
-    // a
-    u8 x,
-}")).
-Eval vm_compute in ("<<<M941>>>" ++ check (runes_of_ascii "packet A {
-    u8 x `a
+    b
+  c` , 
+}  ,
 
-b`,
+}
+
+, }")).
+Eval vm_compute in ("<<<M849>>>" ++ check (runes_of_ascii "packet A {
+  match k as n {
+    [""a"", ""bb"", 007, ""d"", ""e"", 66, ""g""] : B,
+    2 : C
+  },
 }")).
-Eval vm_compute in ("<<<M1903>>>" ++ check (runes_of_ascii "options {
-    // a // b
+Eval vm_compute in ("<<<M1465>>>" ++ check (runes_of_ascii "packet A {
+    match k as n {
+        [1, 22, ""c c"", 4, 5] : B,
+        2 : C,
+    },
 }")).
-Eval vm_compute in ("<<<M1107>>>" ++ check (runes_of_ascii "MetaData tag // c
-{ }")).
-Eval vm_compute in ("<<<M1133>>>" ++ check (runes_of_ascii "MetaData u
+Eval vm_compute in ("<<<M647>>>" ++ check (runes_of_ascii "// @lengthOf(
+packet i8i8 { u128 o , }
+options { MetaDataX = true;
+    BodyLength =")).
+Eval vm_compute in ("<<<M824>>>" ++ check (runes_of_ascii "packet A {
+  match k as n {
+    [""a"", ""bb"", 007, ""d"", ""e""] : B
+    2 : C
+  },
+}")).
+Eval vm_compute in ("<<<M166>>>" ++ check (runes_of_ascii "packet calculatedFrom {repeat // packet A { u8 x, }
+string Foo`{ , }`	, }
+")).
+Eval vm_compute in ("<<<M1636>>>" ++ check (runes_of_ascii "
+options
+
+{
+	Logon	=	""" ++ [28040; 24687]%N ++ runes_of_ascii """ ;
+
+    BodyLength 
+=
+
+    false
+;
+    }
+")).
+Eval vm_compute in ("<<<M851>>>" ++ check (runes_of_ascii "packet A { Inner { match k as n { [1,22,007,4,5,66,7] : B, }, }, }")).
+Eval vm_compute in ("<<<M1781>>>" ++ check (runes_of_ascii "packet A {
+    B {
+        // a
+        u8 x,// b
+    },// d
+}")).
+Eval vm_compute in ("<<<M1757>>>" ++ check (runes_of_ascii "packet A {
+    match k as n {
+        [1, 2] : B,
+    },
+}")).
+Eval vm_compute in ("<<<M1220>>>" ++ check (runes_of_ascii "packet body { i32 f32a `{ , }` , } options { }
 // c
-{ }")).
-Eval vm_compute in ("<<<M1027>>>" ++ check (runes_of_ascii "// c" ++ [8287]%N ++ runes_of_ascii "
+")).
+Eval vm_compute in ("<<<M777>>>" ++ check (runes_of_ascii "packet A { Inner { match k as n { [1] : B, }, }, }")).
+Eval vm_compute in ("<<<M1715>>>" ++ check (runes_of_ascii "options {
+    trueish = '0';
+    a1 = u64;
+}")).
+Eval vm_compute in ("<<<M752>>>" ++ check (runes_of_ascii "repeatCount u32 as false uint64 0 @tag(")).
+Eval vm_compute in ("<<<M1662>>>" ++ check (runes_of_ascii "// top
+packet x {
+    // c2
+}
+// c3")).
+Eval vm_compute in ("<<<M1898>>>" ++ check (runes_of_ascii "packet A {
+    u8 x `d" ++ [12]%N ++ runes_of_ascii "`,// c" ++ [12]%N ++ runes_of_ascii "
+}")).
+Eval vm_compute in ("<<<M1058>>>" ++ check (runes_of_ascii "packet A {
+ u8 x `d" ++ [6158]%N ++ runes_of_ascii "`, // c" ++ [6158]%N ++ runes_of_ascii "
+}")).
+Eval vm_compute in ("<<<M1448>>>" ++ check (runes_of_ascii "packet  f32a
+
+{
+
+    }
+
+")).
+Eval vm_compute in ("<<<M1486>>>" ++ check (runes_of_ascii "// c" ++ [65279]%N ++ runes_of_ascii "
+	packet  A {
+} ")).
+Eval vm_compute in ("<<<M170>>>" ++ check (runes_of_ascii "packet pack
+{
+} 	 ")).
+Eval vm_compute in ("<<<M1002>>>" ++ check (runes_of_ascii "// c" ++ [8192]%N ++ runes_of_ascii "
 packet A {
 }")).
-Eval vm_compute in ("<<<M1014>>>" ++ check (runes_of_ascii "packet A {
-}// c" ++ [8233]%N)).
-Eval vm_compute in ("<<<M762>>>" ++ check (runes_of_ascii "w|lL|]kVFeknSP9")).
-Eval vm_compute in ("<<<M561>>>" ++ check (runes_of_ascii "
-packet")).
-Eval vm_compute in ("<<<M56>>>" ++ check (runes_of_ascii " 	 ")).
+Eval vm_compute in ("<<<M571>>>" ++ check (runes_of_ascii "
+packet
+    asx {")).
+Eval vm_compute in ("<<<M409>>>" ++ check (runes_of_ascii "packet uint8x
+{")).
+Eval vm_compute in ("<<<M1487>>>" ++ check (runes_of_ascii "// " ++ [128512]%N ++ runes_of_ascii " emoji")).
+Eval vm_compute in ("<<<M726>>>" ++ check (runes_of_ascii "
+	 ")).
